@@ -3,11 +3,12 @@
 Every model returns a list of results: ('val', env, path, value) or ('diverge' | 'unreachable', env, path).
 They are the documented semantics of the functions, written once here instead of being re-derived from
 the (specialised, unsafe) library source."""
-from .sem import (model, Loop, Iter, Path, NONE, UNIT, OPTION, RESULT, CONTROL, some, mk_variant, ITER_TRAITS)
+from .sem import (model, Loop, Iter, Path, Cx, NONE, UNIT, OPTION, RESULT, CONTROL, some, mk_variant, ITER_TRAITS)
 
 # unary adaptors that neither drop nor reorder nor transform elements
 IDENTITY_ADAPTORS = set(["cloned", "copied", "by_ref", "fuse", "peekable"])
-STAGE_ADAPTORS = set(["map", "filter", "filter_map", "inspect", "enumerate"])
+STAGE_ADAPTORS = set(["map", "filter", "filter_map", "inspect", "enumerate", "flat_map", "flatten"])
+FLAT = ("flat_map", "flatten")
 LAZY = STAGE_ADAPTORS | IDENTITY_ADAPTORS | set(["rev", "skip", "take", "zip", "chain", "flatten", "flat_map", "step_by", "take_while",
                                                  "skip_while", "map_while", "scan", "cycle", "iter", "iter_mut", "into_iter"])
 
@@ -452,30 +453,40 @@ def run_stages(ev, cx, L, stages, x, env, path):
     return cur
 
 
-def model_loop(ev, cx, name, recv, body_fn, done_value, init=None):
-    """Common skeleton of the consuming iterator methods.
-    body_fn(x, env, path, L) -> list of (end, env, path, ret) with end in continue / break / diverge."""
-    base, stages = peel(ev, recv)
-    lid = (cx.fid, cx.bb, name)
-    L = Loop(lid, cx.site, "model:" + name)
+def _loop(ev, cx, lid, kind, base, stages, body_fn, iter_ty):
+    """One modelled loop (recursively: one per flatten / flat_map level).  Returns (Loop, results) with results
+    (end, env, path, value, idx): end in break / done / diverge / unreachable."""
+    flat = [i for i, (n, _) in enumerate(stages) if n in FLAT]
+    pre, rest = (stages[:flat[0]], stages[flat[0]:]) if flat else (stages, [])
+    L = Loop(lid, cx.site, kind)
     L.elem = ("elem", lid)
-    acc = (lid, "acc")
     env = cx.env
-    if init is not None:
-        env[acc] = init
-    ev.callees.setdefault(cx.site, cx.callee)
 
     def iterate(env0):
         L.source = L.raw_source = base
-        L.stages = stages
-        L.iter_ty = cx.callee.self_arg_s
+        L.stages = pre
+        L.iter_ty = iter_ty
         out = []
-        for (st, env1, p1, x) in run_stages(ev, cx, L, stages, L.elem, env0, Path()):
+        for (st, env1, p1, x) in run_stages(ev, cx, L, pre, L.elem, env0, Path()):
             if st != "val":
                 out.append((st, env1, p1, None, None))
                 continue
-            for (end, env2, p2, ret) in body_fn(x, env1, p1, L):
-                out.append((end, env2, p2, ret, None))
+            if not rest:
+                for (end, env2, p2, ret) in body_fn(x, env1, p1, L):
+                    out.append((end, env2, p2, ret, None))
+                continue
+            # the element is itself traversed (flatten) or mapped to something that is (flat_map)
+            name, f = rest[0]
+            inners = [("val", env1, p1, x)] if name == "flatten" else _apply(ev, cx, f, (x,), env1, p1, "fm%d" % len(lid))
+            for r in inners:
+                if r[0] != "val":
+                    out.append((r[0], r[1], r[2], None, None))
+                    continue
+                ibase, istages = peel(ev, r[3])
+                sub = Cx(cx.fid, cx.body, cx.bb, r[1], r[2], cx.site, cx.callee, cx.ops)
+                Li, res = _loop(ev, sub, lid + ("in",), kind, ibase, istages + rest[1:], body_fn, None)
+                for (end, env2, p2, val, idx) in res:
+                    out.append(("continue" if end == "done" else end, env2, p2, val, None))
         return out
 
     ev.loop_fixpoint(L, env, iterate)
@@ -487,18 +498,35 @@ def model_loop(ev, cx, name, recv, body_fn, done_value, init=None):
         p.events.append(("loop", L, idx))
         p.conds.extend(c for c in it.path.conds if c not in p.conds)
         p.narrow.update(it.path.narrow)
-        if it.end == "break":
-            results.append(("val", dict(it.env), p, it.ret))
-        else:
-            results.append((it.end, it.env, p))
+        results.append((it.end, dict(it.env) if it.end == "break" else it.env, p, it.ret, idx))
     env_after = dict(env)
     for k in L.carried:
         env_after[k] = ("lexit", lid, k)
     L.iters.append(Iter(Path(), "done", dict((k, ("lvar", lid, k)) for k in L.carried)))
     p = cx.path.copy()
     p.events.append(("loop", L, len(L.iters) - 1))
-    results.append(("val", env_after, p, done_value(env_after, L)))
-    return results
+    results.append(("done", env_after, p, None, len(L.iters) - 1))
+    return L, results
+
+
+def model_loop(ev, cx, name, recv, body_fn, done_value, init=None):
+    """Common skeleton of the consuming iterator methods.
+    body_fn(x, env, path, L) -> list of (end, env, path, ret) with end in continue / break / diverge."""
+    base, stages = peel(ev, recv)
+    lid = (cx.fid, cx.bb, name)
+    if init is not None:
+        cx.env[(lid, "acc")] = init
+    ev.callees.setdefault(cx.site, cx.callee)
+    L, res = _loop(ev, cx, lid, "model:" + name, base, stages, body_fn, cx.callee.self_arg_s)
+    out = []
+    for (end, env, path, val, idx) in res:
+        if end == "break":
+            out.append(("val", env, path, val))
+        elif end == "done":
+            out.append(("val", env, path, done_value(env, L)))
+        else:
+            out.append((end, env, path))
+    return out
 
 
 @model("fold", "iter")
@@ -620,3 +648,44 @@ def vec_retain(ev, cx, args):
 
 
 model("retain_mut", "vec")(vec_retain)
+
+
+# ---------------------------------------------------------------------------- rayon: combinators that run their closure(s) once, and the parallel for_each
+
+@model("install", "rayon")
+def rayon_install(ev, cx, args):
+    cx.path.events.append(("once", cx.site, "install", args[0]))
+    return _apply(ev, cx, args[-1], (), cx.env, cx.path, "f", len(args) - 1)
+
+
+@model("spawn", "rayon")
+def rayon_spawn(ev, cx, args):
+    cx.path.events.append(("once", cx.site, "spawn", args[0] if len(args) > 1 else None))
+    out = []
+    for r in _apply(ev, cx, args[-1], (), cx.env, cx.path, "f", len(args) - 1):
+        out.append(("val", r[1], r[2], UNIT) if r[0] == "val" else r)
+    return out
+
+
+@model("join", "rayon")
+def rayon_join(ev, cx, args):
+    fa, fb = args[-2], args[-1]
+    cx.path.events.append(("once", cx.site, "join", args[0] if len(args) > 2 else None))
+    out = []
+    for r in _apply(ev, cx, fa, (), cx.env, cx.path, "a", len(args) - 2):
+        if r[0] != "val":
+            out.append(r)
+            continue
+        for r2 in _apply(ev, cx, fb, (), r[1], r[2], "b", len(args) - 1):
+            out.append(("val", r2[1], r2[2], ("agg", "tuple", "tuple", (r[3], r2[3]), ())) if r2[0] == "val" else r2)
+    return out
+
+
+@model("for_each", "rayon")
+def rayon_for_each(ev, cx, args):
+    recv, f = args
+
+    def body(x, env, path, L):
+        return [("continue" if r[0] == "val" else r[0], r[1], r[2], None) for r in _apply(ev, cx, f, (x,), env, path, "f", 1)]
+
+    return model_loop(ev, cx, "par_for_each", recv, body, lambda env, L: UNIT)
